@@ -37,6 +37,7 @@ type Solver struct {
 	buf     strings.Builder
 	oneShot map[string]uint64 // variable assignment of the last one-shot Sat answer (nil otherwise)
 	OneShots int
+	Tactic   string // when set, queries use (check-sat-using <tactic>) instead of the incremental core
 	incTimeoutMs int
 }
 
@@ -53,6 +54,9 @@ func NewSolver(kind string, ctx *Ctx, timeoutMs int) (*Solver, error) {
 		cmd = exec.Command("z3-new", "-in", fmt.Sprintf("-t:%d", inc))
 	case "cvc5":
 		cmd = exec.Command("cvc5", "--incremental", "--lang=smt2", fmt.Sprintf("--tlimit-per=%d", timeoutMs))
+	case "cvc5-int":
+		// bit-vectors solved as integers: linear offset arithmetic becomes LIA (seconds -> milliseconds)
+		cmd = exec.Command("cvc5", "--incremental", "--lang=smt2", "--solve-bv-as-int=sum", fmt.Sprintf("--tlimit-per=%d", timeoutMs))
 	default:
 		return nil, fmt.Errorf("unknown solver %s", kind)
 	}
@@ -221,7 +225,11 @@ func (s *Solver) Check(pc []*Term, extra *Term) (SatResult, error) {
 	t0 := time.Now()
 	s.oneShot = nil
 	s.setStack(full)
-	s.send("(check-sat)\n")
+	if s.Tactic != "" {
+		s.send("(check-sat-using " + s.Tactic + ")\n")
+	} else {
+		s.send("(check-sat)\n")
+	}
 	lines, err := s.sync()
 	s.Time += time.Since(t0)
 	s.Queries++
@@ -333,6 +341,9 @@ func (s *Solver) checkOneShot(pc []*Term) (SatResult, error) {
 		bin = "z3"
 	}
 	cmd := exec.Command(bin, fmt.Sprintf("-T:%d", s.timeoutMs/1000+1), f.Name())
+	if strings.HasPrefix(s.name, "cvc5") {
+		cmd = exec.Command("cvc5", "--lang=smt2", "--solve-bv-as-int=sum", fmt.Sprintf("--tlimit=%d", s.timeoutMs), f.Name())
+	}
 	out, _ := cmd.Output()
 	txt := string(out)
 	lines := strings.SplitN(strings.TrimSpace(txt), "\n", 2)
